@@ -42,8 +42,9 @@ DaysFromCivil(y, m, d) == DaysBeforeYear(y) + DaysBeforeMonth(y, m) + d - 1
 
 YearOf(z) == LET g == 2000 + z \div 366       \* never above the true year, at most one below (z < 25000)
              IN CHOOSE y \in g..(g + 1) : DaysBeforeYear(y) <= z /\ z < DaysBeforeYear(y + 1)
-MonthOf(y, r) == CHOOSE m \in 1..12 :
-                   DaysBeforeMonth(y, m) <= r /\ (m = 12 \/ r < DaysBeforeMonth(y, m + 1))
+MonthOf(y, r) == LET g == r \div 32 + 1      \* never above the true month, at most one below
+                 IN CHOOSE m \in g..(IF g < 12 THEN g + 1 ELSE 12) :
+                      DaysBeforeMonth(y, m) <= r /\ (m = 12 \/ r < DaysBeforeMonth(y, m + 1))
 Civil(z) == LET y == YearOf(z)
                 r == z - DaysBeforeYear(y)
                 m == MonthOf(y, r)
@@ -159,8 +160,9 @@ Before(o1, o2) ==
   \/ o1.mo < o2.mo /\ o1.s < D28
   \/ o1.mo * D31 + o1.s < o2.mo * D28 + o2.s
 Pre(in) ==
-  /\ \A i \in 1..Len(in.slots) : Within(in.unit, in.n, Off(in.slots[i]))
-  /\ \A i \in 1..(Len(in.slots) - 1) : Before(Off(in.slots[i]), Off(in.slots[i + 1]))
+  LET offs == [i \in 1..Len(in.slots) |-> Off(in.slots[i])]
+  IN /\ \A i \in 1..Len(offs) : Within(in.unit, in.n, offs[i])
+     /\ \A i \in 1..(Len(offs) - 1) : Before(offs[i], offs[i + 1])
 
 (***************************************************************************)
 (* The occurrences.                                                        *)
